@@ -2,6 +2,7 @@ package main
 
 import (
 	"fmt"
+	"math/rand"
 
 	"github.com/inspirer/textmapper/lalr"
 )
@@ -9,6 +10,59 @@ import (
 func init() {
 	props["C03"] = func(c *Ctx) { lalr1Cases(c, false) }
 	props["C04"] = func(c *Ctx) { lalr1Cases(c, true) }
+}
+
+// nullableCycleGram: a recursive nonterminal whose alternatives start with the same run of nullable
+// nonterminals (A -> B C A | B C E z | %empty with B, C, E nullable): the transitions on B, C, E, A form
+// cycles and sibling edges in the `reads` and `includes` relations of the LALR construction.
+func nullableCycleGram(r *rand.Rand) *Gram {
+	g := &Gram{Shape: "nullcycle"}
+	nt := 3 + r.Intn(3) // terminals 1..nt-1
+	g.NT = nt
+	k := 2 + r.Intn(3) // nullable helpers
+	a := g.NT
+	g.NN = 1 + k
+	helper := func(i int) int { return g.NT + 1 + i }
+	for i := 0; i < k; i++ {
+		g.Rules = append(g.Rules, GRule{LHS: helper(i), RHS: nil})
+		if r.Intn(3) != 0 {
+			g.Rules = append(g.Rules, GRule{LHS: helper(i), RHS: []int{1 + r.Intn(nt-1)}})
+		}
+		if r.Intn(4) == 0 && i > 0 {
+			g.Rules = append(g.Rules, GRule{LHS: helper(i), RHS: []int{helper(r.Intn(i))}})
+		}
+	}
+	prefix := func() []int {
+		var p []int
+		for i := 0; i < k; i++ {
+			if r.Intn(4) != 0 {
+				p = append(p, helper(i))
+			}
+		}
+		return p
+	}
+	common := prefix()
+	nAlt := 2 + r.Intn(3)
+	for j := 0; j < nAlt; j++ {
+		rhs := append([]int(nil), common...)
+		if r.Intn(3) == 0 {
+			rhs = prefix()
+		}
+		switch r.Intn(4) {
+		case 0: // right recursion through the nullable prefix
+			rhs = append(rhs, a)
+		case 1: // one more nullable sibling, then a terminal
+			rhs = append(rhs, helper(r.Intn(k)), 1+r.Intn(nt-1))
+		case 2:
+			rhs = append(rhs, 1+r.Intn(nt-1))
+		default: // recursion in the middle
+			rhs = append(rhs, a, helper(r.Intn(k)))
+		}
+		g.Rules = append(g.Rules, GRule{LHS: a, RHS: rhs})
+	}
+	g.Rules = append(g.Rules, GRule{LHS: a, RHS: nil})
+	g.Inputs = []GInput{{Sym: a, Eoi: r.Intn(4) != 0}}
+	return g
 }
 
 // C03: the real lalr.Compile on random grammars (conflicting ones included); the tables, conflict
@@ -24,7 +78,17 @@ func lalr1Cases(c *Ctx, prec bool) {
 		if i%7 == 3 {
 			cfg.MaxNN, cfg.MaxRules = 8, 3
 		}
+		if i%5 == 1 {
+			// many nullable nonterminals: cycles in the `reads` relation (nullable transitions), long
+			// nullable tails behind a nonterminal (includes edges)
+			cfg.PEmpty, cfg.MaxNT = 0.45, 3
+			c.Count("nullable-heavy family")
+		}
 		g := RandGram(c.Rng, cfg)
+		if i%9 == 4 {
+			g = nullableCycleGram(c.Rng)
+			c.Count("nullable-cycle family")
+		}
 		if prec && c.Rng.Intn(5) == 0 {
 			g = exprGram(c.Rng, cfg)
 		}
